@@ -246,6 +246,16 @@ impl<'a> Fold<Diagnostic> for TypeResolver<'a> {
         self.require_known_type(&node.return_type, "Function result type");
         node.recurse_fold(self)
     }
+
+    fn fold_structure_initialization_declaration(
+        &mut self,
+        node: StructureInitializationDeclaration,
+    ) -> Result<StructureInitializationDeclaration, Diagnostic> {
+        // A structure written with initial values for its elements
+        // (name : type := (element := constant)) names its type too.
+        self.require_known_type(&node.type_name, "Structure type");
+        node.recurse_fold(self)
+    }
 }
 
 impl TypeResolver<'_> {
